@@ -59,7 +59,8 @@ type xexpr struct {
 	c     *xexpr
 	args  []*xexpr
 	value float64
-	neg   bool // xNum: the literal is -value (s holds the digits of the absolute value)
+	smw   string // xNum: the text under minify-whitespace when it differs from s
+	neg   bool   // xNum: the literal is -value (s holds the digits of the absolute value)
 }
 
 var coqOpNames = []string{"UPos", "UNeg", "UCpl", "UNot", "UVoid", "UTypeof", "UDelete", "UPreDec", "UPreInc", "UPostDec", "UPostInc",
@@ -70,11 +71,14 @@ var coqOpNames = []string{"UPos", "UNeg", "UCpl", "UNot", "UVoid", "UTypeof", "U
 	"BShlAssign", "BShrAssign", "BUShrAssign", "BBitOrAssign", "BBitAndAssign", "BBitXorAssign",
 	"BNullishAssign", "BLogOrAssign", "BLogAndAssign"}
 
-func (e *xexpr) coq() string {
+func (e *xexpr) coq(mw bool) string {
 	switch e.k {
 	case xId:
 		return "(EId " + CBytes([]byte(asciiIdent(e.s))) + ")"
 	case xNum:
+		if mw && e.smw != "" {
+			e = &xexpr{k: xNum, s: e.smw, neg: e.neg}
+		}
 		if e.neg {
 			// abstraction of the model: a negative numeric literal is the unary-minus tree it is printed as
 			// (printNumber: "-" behind printSpaceBeforeOperator, "(-1)" at level >= LPrefix; "**" puts a number base at LCall)
@@ -84,24 +88,24 @@ func (e *xexpr) coq() string {
 	case xRe:
 		return "(ERe " + CBytes([]byte(e.s)) + " " + CBytes([]byte(e.f)) + ")"
 	case xDot:
-		return "(EDot " + e.a.coq() + " " + CBytes([]byte(e.s)) + ")"
+		return "(EDot " + e.a.coq(mw) + " " + CBytes([]byte(e.s)) + ")"
 	case xUn:
-		return "(EUn " + coqOpNames[e.op] + " " + e.a.coq() + ")"
+		return "(EUn " + coqOpNames[e.op] + " " + e.a.coq(mw) + ")"
 	case xCond:
-		return "(ECond " + e.a.coq() + " " + e.b.coq() + " " + e.c.coq() + ")"
+		return "(ECond " + e.a.coq(mw) + " " + e.b.coq(mw) + " " + e.c.coq(mw) + ")"
 	case xIndex:
-		return "(EIndex " + e.a.coq() + " " + e.b.coq() + ")"
+		return "(EIndex " + e.a.coq(mw) + " " + e.b.coq(mw) + ")"
 	case xCall, xNew:
 		args := "ANil"
 		for i := len(e.args) - 1; i >= 0; i-- {
-			args = "(ACons " + e.args[i].coq() + " " + args + ")"
+			args = "(ACons " + e.args[i].coq(mw) + " " + args + ")"
 		}
 		if e.k == xCall {
-			return "(ECall " + e.a.coq() + " " + args + ")"
+			return "(ECall " + e.a.coq(mw) + " " + args + ")"
 		}
-		return "(ENew " + e.a.coq() + " " + args + ")"
+		return "(ENew " + e.a.coq(mw) + " " + args + ")"
 	default:
-		return "(EBin " + coqOpNames[e.op] + " " + e.a.coq() + " " + e.b.coq() + ")"
+		return "(EBin " + coqOpNames[e.op] + " " + e.a.coq(mw) + " " + e.b.coq(mw) + ")"
 	}
 }
 
@@ -191,7 +195,24 @@ var propPool = []string{"a", "b", "length", "x1", "$", "_p", "e", "E", "toString
 var reBodies = []string{"x", "a+", "ab*c", "=", "==", "script", "SCRIPT>", "Script x", "scrip", "(?:a|b)", " ", "a b", "^$", "-->", "<!--", "-", ".", "!--", "a+?", "a{2}"}
 var reFlags = []string{"", "g", "i", "gi", "m", "s", "u", "y", "d", "gimsuy"}
 
+// numeric literals that are not plain integers, with the text printNonNegativeFloat is expected to produce
+// (written down by hand from the shortest round-trip representation, not taken from the printer):
+// only a text without ".", "e" and "x" needs the space before a following "."
+var specialNums = []xexpr{
+	{k: xNum, value: 1.5, s: "1.5"}, {k: xNum, value: 12.25, s: "12.25"}, {k: xNum, value: 1000.5, s: "1000.5"},
+	{k: xNum, value: 1000, s: "1e3"}, {k: xNum, value: 12000, s: "12e3"}, {k: xNum, value: 1500000, s: "15e5"}, {k: xNum, value: 1e21, s: "1e21"}, {k: xNum, value: 1e12, s: "1e12"},
+	{k: xNum, value: 1.5e300, s: "15e299"}, {k: xNum, value: 1e-7, s: "1e-7"}, {k: xNum, value: 5e-7, s: "5e-7"}, {k: xNum, value: 1.5e-7, s: "15e-8"},
+	{k: xNum, value: 123456789012, s: "123456789012"}, {k: xNum, value: 9007199254740992, s: "9007199254740992"},
+	{k: xNum, value: 0xFFFFFFFFFFFF, s: "281474976710655", smw: "0xffffffffffff"}, {k: xNum, value: 0xFFFFFFFFFFFFF, s: "4503599627370495", smw: "0xfffffffffffff"},
+	{k: xNum, value: 0xABCDEF012345E, s: "3022415463593054", smw: "0xabcdef012345e"},
+}
+
 func genNum(r *Rng) *xexpr {
+	if r.Chance(20) {
+		e := specialNums[r.Intn(len(specialNums))]
+		e.neg = r.Chance(15)
+		return &e
+	}
 	var v int64
 	switch r.Intn(4) {
 	case 0:
@@ -408,6 +429,16 @@ func gluingGrid() []*xexpr {
 			}
 		}
 	}
+	for i := range specialNums {
+		pos := &specialNums[i]
+		ng := *pos
+		ng.neg = true
+		neg := &ng
+		out = append(out, pos, dot(pos, "e"), dot(pos, "x1"), dot(dot(pos, "e"), "e"), idx(pos, pos), call(pos, pos), nw(pos, pos), call(dot(pos, "toString")), cond(pos, pos, pos),
+			dot(neg, "e"), bin(js_ast.BinOpPow, neg, pos), bin(js_ast.BinOpSub, pos, neg), bin(js_ast.BinOpIn, pos, id("a")), bin(js_ast.BinOpIn, id("a"), pos), bin(js_ast.BinOpInstanceof, dot(pos, "e"), pos),
+			un(js_ast.UnOpTypeof, pos), un(js_ast.UnOpNeg, pos), un(js_ast.UnOpPreDec, dot(pos, "e")), un(js_ast.UnOpPostInc, dot(pos, "e")), bin(js_ast.BinOpAdd, pos, dot(pos, "e")),
+			bin(js_ast.BinOpDiv, pos, &xexpr{k: xRe, s: "x", f: ""}), bin(js_ast.BinOpComma, pos, pos), bin(js_ast.BinOpAssign, dot(pos, "e"), pos))
+	}
 	for _, p := range pre {
 		out = append(out, call(id("x"), un(p, id("a"))), nw(id("x"), un(p, id("a"))), un(p, dot(call(id("a")), "b")), un(p, dot(nw(id("a")), "b")))
 		if p != js_ast.UnOpPreDec && p != js_ast.UnOpPreInc {
@@ -489,7 +520,7 @@ func runC13(seed uint64, n int, tier string, outDir string) []*Stats {
 		}
 		for _, m := range modes {
 			out := printTree(e, m)
-			items = append(items, fmt.Sprintf("(%s,%s,%s)", CBool(m), e.coq(), CBytes([]byte(out))))
+			items = append(items, fmt.Sprintf("(%s,%s,%s)", CBool(m), e.coq(m), CBytes([]byte(out))))
 			st.Note("print-tree", out+fmt.Sprint(m), e.k == xUn || e.k == xBin)
 			other := ""
 			if idOnly(e) {
